@@ -327,6 +327,11 @@ def _load_schema_version_sub(xml_version, schema_namespace="", xml_folder=None, 
     try:
         # 1. Try fully local(or from direct cache)
         final_hed_xml_file = hed_cache.get_hed_version_path(xml_version, library_name, xml_folder)
+        if not final_hed_xml_file:
+            # Not (yet) in the cache, e.g. its first-use population was interrupted or is still running in another
+            # process: use the copy installed with the package, if there is one.
+            final_hed_xml_file = hed_cache.get_hed_version_path(xml_version, library_name,
+                                                                hed_cache.INSTALLED_CACHE_LOCATION)
         hed_schema = load_schema(final_hed_xml_file, schema=schema, name=name)
     except HedFileError as e:
         if e.code == HedExceptions.FILE_NOT_FOUND:
